@@ -281,6 +281,14 @@ def check(prop, tier, seed):
     with tlc.Scratch() as scratch:
         model_check(rep, prop, tier, scratch)
         scs = gen_scenarios(tier, seed, want_steps=(prop == 'C05'))
+        if prop == 'C05':
+            from vv import props_steps
+            scs = (props_steps.dag_scenarios(3) +
+                   (props_steps.dag_scenarios(4) if tier == 'thorough' else [])
+                   + scs[-(900 if tier == 'quick' else 4000):])
+            rep.notes['flows_enumerated'] = (
+                'every acyclic flow over 3%s steps x every ordering of up to '
+                '2 legacy derivers' % (' and 4' if tier == 'thorough' else ''))
         validate(rep, prop, scs, scratch)
         if prop == 'C04':
             from vv import props_order
